@@ -68,15 +68,17 @@ func (f *FileEnt) link_child(name string, c *FileEnt) error {
 // Opposite of link_child
 // Caller is responsible for calling c.decref *after* this
 // routine returns successfully (error == nil).
-func (f *FileEnt) unlink_child(name string) error {
+func (f *FileEnt) unlink_child(name string, c *FileEnt) error {
 	if f.children == nil {
 		return errors.New("not a directory.")
 	}
 
 	f.Lock()
 	defer f.Unlock()
-	_, found := f.children[name]
-	if !found {
+	cur, found := f.children[name]
+	if !found || cur != c {
+		// the link to c is already gone (the name may since have
+		// been given to another file, which must not be removed).
 		return errors.New("not found")
 	}
 	delete(f.children, name)
